@@ -503,6 +503,14 @@ pub fn tokens_to_redirections(tokens: &Tokens) -> Result<(Tokens, Vec<Redirectio
             continue;
         }
         let word = &token.1;
+        // NAME='...' / NAME="...": parse_line keeps the quotes of such a word
+        // in its text and gives it no separator; a `>` in it is quoted text
+        if !to_be_continued
+            && libs::re::re_contains(word, r#"(?s)^[a-zA-Z0-9_]+=('.*'|".*")$"#)
+        {
+            tokens_new.push(token.clone());
+            continue;
+        }
 
         if to_be_continued {
             if sep.is_empty() && word.starts_with('&') {
